@@ -1,7 +1,9 @@
 /-
-  FsModel.Glob — `fs/glob.py` as written: `_split_pattern_by_sep`, `_translate`,
-  `_translate_glob` (the regex text, character for character, *and* the `Regex` AST with the
-  `levels` value), `match`, `imatch`, `match_any`, `imatch_any`, `get_matcher(accept_prefix)`;
+  FsModel.Glob — `fs/glob.py` as written (/repo 8d610d8: bracket expressions `(?!/)[…]`,
+  `(?s)^…\Z`, a whole `**` component `(?:/[^/]+)*`, final `/\Z` | `/?\Z`):
+  `_split_pattern_by_sep`, `_translate`, `_translate_glob` (the regex text, character for
+  character, *and* the `Regex` AST with the `levels` value), `match`, `imatch`, `match_any`,
+  `imatch_any`, `get_matcher(accept_prefix)`;
   `Fs.LRU` — `fs/lrucache.py` and the cached `match`; and `GlobSpec`, the documented
   meaning of a glob pattern (docs/source/globbing.rst + the property text) written directly.
 -/
@@ -55,7 +57,8 @@ def textGo : Str → Nat → TR Str
     else if c = '[' then
       match Wild.scanClass cs with
       | none => tappend ['\\', '['] (textGo cs 0)
-      | some (stuff, _) => tappend (Wild.classText ['^', '/'] stuff) (textGo cs (stuff.length + 1))
+      | some (stuff, _) =>
+        tappend ("(?!/)".toList ++ Wild.classText ['^'] stuff) (textGo cs (stuff.length + 1))
     else tappend (Wild.reEscape c) (textGo cs 0)
 
 /-- `glob._translate(pattern)` -/
@@ -86,7 +89,8 @@ def levelsOf (pat : Str) (recursive : Bool) : Option Nat :=
 
 /-- the text of one component as appended to `re_patterns` -/
 def compText (comp : Str) : TR Str :=
-  if hasSS comp then
+  if comp = ['*', '*'] then .ok "(?:/[^/]+)*".toList
+  else if hasSS comp then
     (mapM' translateText (splitSS comp)).map fun l => "/?".toList ++ joinStr ".*/?".toList l
   else tappend ['/'] (translateText comp)
 
@@ -100,24 +104,18 @@ def translateGlobText (pat : Str) : TR (Option Nat × Bool × Str) :=
     | .err e => .err e
     | .ok pieces =>
       let recursive := comps.any hasSS
-      let tail : Str := if endsWithSlash pat then "/$".toList else "$".toList
-      .ok (levelsOf pat recursive, recursive, "(?ms)^".toList ++ pieces.flatten ++ tail)
+      let tail : Str := if endsWithSlash pat then "/\\Z".toList else "/?\\Z".toList
+      .ok (levelsOf pat recursive, recursive, "(?s)^".toList ++ pieces.flatten ++ tail)
 
 /-! ### `_translate`: the AST -/
 
 def slash : Atom := .chr ⟨'/', false⟩
 
-/-- the atom of a bracket expression.  `!` becomes `^/`, i.e. the set is negated and `/` is
-*prepended to the member text* — so a following `-` makes slash-dash-x a range, and a following `]`
-closes the set early; that last case leaves the structured subset (`outside`; the driver
-then goes through `Regex.parse` of the text). -/
-def classAtom (stuff : Str) : TR Atom :=
-  match stuff with
-  | '!' :: r =>
-    if r.head? = some ']' then .err .outside
-    else (Wild.rawItems ('/' :: r) false).map (Atom.set true)
-  | r => (Wild.rawItems r true).map (Atom.set false)
+/-- prepend several items -/
+def consL (is : List Item) (r : TR (List Item)) : TR (List Item) := r.map (is ++ ·)
 
+/-- a bracket expression: the set is the one `wildcard._translate` writes (`[!` → `[^`, a
+leading `^` escaped), preceded by the lookahead `(?!/)` — it never matches the separator -/
 def go : Str → Nat → TR (List Item)
   | [], _ => .ok []
   | _ :: cs, n + 1 => go cs n
@@ -129,9 +127,9 @@ def go : Str → Nat → TR (List Item)
       match Wild.scanClass cs with
       | none => Wild.cons (.one (.chr ⟨'[', true⟩)) (go cs 0)
       | some (stuff, _) =>
-        match classAtom stuff with
+        match Wild.classAtom stuff with
         | .err e => .err e
-        | .ok a => Wild.cons (.one a) (go cs (stuff.length + 1))
+        | .ok a => consL [.notAhead slash, .one a] (go cs (stuff.length + 1))
     else Wild.cons (.one (.chr (LChar.lit c))) (go cs 0)
 
 /-- the items of `glob._translate(pattern)` -/
@@ -147,8 +145,12 @@ def joinItems (sep : List Item) : List (List Item) → List Item
 def optSlash : Item := .opt slash false
 def anyRun : Item := .star .any false
 
+/-- the body of `(?:/[^/]+)*`: one whole directory level -/
+def levelGroup : List GItem := [.one slash, .plus Wild.notSlash]
+
 def compItems (comp : Str) : TR (List Item) :=
-  if hasSS comp then
+  if comp = ['*', '*'] then .ok [.starGroup levelGroup]
+  else if hasSS comp then
     (mapM' translate (splitSS comp)).map fun l => optSlash :: joinItems [anyRun, optSlash] l
   else Wild.cons (.one slash) (translate comp)
 
@@ -167,13 +169,13 @@ def translateGlob (pat : Str) (caseSensitive : Bool := true) : TR Compiled :=
     | .err e => .err e
     | .ok pieces =>
       let recursive := comps.any hasSS
-      let tail : List Item := if endsWithSlash pat then [.one slash, .eol] else [.eol]
+      let tail : List Item := if endsWithSlash pat then [.one slash, .endZ] else [optSlash, .endZ]
       .ok { levels := levelsOf pat recursive, recursive := recursive,
-            re := { inline := ['m', 's'], ic := !caseSensitive,
+            re := { inline := ['s'], ic := !caseSensitive,
                     items := .bol :: pieces.flatten ++ tail } }
 
-/-- the same through the text: what Python's parser makes of the string (also defined where
-`translateGlob` answers `outside`) -/
+/-- the same through the text: what the model of Python's parser makes of the string (the driver
+checks that it is the same AST) -/
 def translateGlobViaText (pat : Str) (caseSensitive : Bool := true) : TR Compiled :=
   match translateGlobText pat with
   | .err e => .err e
@@ -182,11 +184,8 @@ def translateGlobViaText (pat : Str) (caseSensitive : Bool := true) : TR Compile
     | .err e => .err e
     | .ok re => .ok { levels := lv, recursive := rec_, re := re }
 
-/-- what `match` does: the structured translation, the text route where that is `outside` -/
-def compile (pat : Str) (caseSensitive : Bool := true) : TR Compiled :=
-  match translateGlob pat caseSensitive with
-  | .err .outside => translateGlobViaText pat caseSensitive
-  | r => r
+/-- what `match` / `imatch` / `Globber._make_iter` compile -/
+def compile (pat : Str) (caseSensitive : Bool := true) : TR Compiled := translateGlob pat caseSensitive
 
 /-- `if path and path[0] != "/": path = "/" + path` -/
 def fixPath (path : Str) : Str :=
@@ -334,21 +333,12 @@ def depth (path : List Str) : Nat := path.length
 
 /-! ### where the code keeps the documented meaning
 
-The decidable side conditions of `Fs.C14.glob_correct_partial`; each excludes one class in
-which `fs.glob` deviates from the documented semantics (findings/C14-*.md) or in which the
-documentation is silent. -/
+The decidable side conditions of `Fs.C14.glob_correct`: two classes in which the documentation is
+silent (`dotFree`, `starStarWhole`) and the one class in which `fs.glob` still deviates from the
+documented semantics (`emptyTail`, findings/C14-empty-component-matches-dir-slash.md). -/
 
-/-- a name a filesystem can hold (non-empty, no `/`) that contains no newline -/
-def GoodName (n : Str) : Prop := n ≠ [] ∧ '/' ∉ n ∧ '\n' ∉ n
-
-/-- tokens on which `glob._translate` keeps the documented meaning: a negated bracket
-expression whose text starts neither with `]` nor with a `-` that would pair up with the
-inserted `/` (`[^/` …); a positive one that does not contain `/` through a range; no literal `/` -/
-def goodTok : Tok → Bool
-  | .cls true body => !(body.head? == some ']') && !(body.head? == some '-' && decide (2 ≤ body.length))
-  | .cls false body => !inBody body '/'
-  | .lit x => x != '/'
-  | _ => true
+/-- a name a filesystem can hold: non-empty, no `/` -/
+def FsName (n : Str) : Prop := n ≠ [] ∧ '/' ∉ n
 
 def ss : Str := ['*', '*']
 
@@ -358,24 +348,21 @@ def patComps (pat : Str) : List Str := (splitSlash pat).filter (fun c => c ≠ [
 /-- no `.` / `..` component (the code normalises the pattern like a path; the docs are silent) -/
 def dotFree (pat : Str) : Bool := !(splitSlash pat).any isDots
 
-/-- every `**` is a whole component and stands before all other components -/
-def starStarLeadingWhole (pat : Str) : Bool :=
-  ((patComps pat).dropWhile (· == ss)).all fun c => !Glob.hasSS c
+/-- every `**` is a whole component (a `**` glued to other text has no documented meaning) -/
+def starStarWhole (pat : Str) : Bool := (patComps pat).all fun c => c == ss || !Glob.hasSS c
 
-/-- the bracket expressions of all components are `goodTok` -/
-def goodClasses (pat : Str) : Bool :=
-  (patComps pat).all fun c => c == ss || (tokenize c 0).all goodTok
+def Regular (pat : Str) : Bool := dotFree pat && starStarWhole pat
 
-def Regular (pat : Str) : Bool := dotFree pat && starStarLeadingWhole pat && goodClasses pat
+def isStar : Tok → Bool
+  | .star => true
+  | _ => false
 
-/-- a positive bracket expression that does not contain `/` (through a range) -/
-def noSlashTok : Tok → Bool
-  | .cls false body => !inBody body '/'
-  | _ => true
-
-/-- side condition of `levels_sound`: no positive bracket expression of the pattern contains `/` -/
-def noSlashRanges (pat : Str) : Bool := (splitSlash pat).all fun c => (tokenize c 0).all noSlashTok
-
+/-- the last component that is not `**` consists of `*` only: it can match the *empty* name the
+regex sees after the `/` appended to a directory -/
+def emptyTail : List PComp → Bool
+  | [] => false
+  | .starstar :: ps => emptyTail ps
+  | .seg toks :: ps => if ps.all (· == .starstar) then toks.all isStar else emptyTail ps
 
 end Fs.GlobSpec
 
